@@ -10,6 +10,11 @@ CHECKS = {
    "Every MMR size up to a bound is built leaf by leaf through grin's PMMR and compared (size, peak positions, root, every node hash, every Merkle path) with a forest of perfect trees built from the definition with its own blake2b hashing; every proof of every leaf is corrupted in each single way the property lists and must be refused; the pure position functions are compared with an explicitly traversed tree for all positions below 2^16 and with closed-form u128 arithmetic near powers of two and up to 2^62. Exploration, exhaustive only below the stated bounds.",
    "Trusts blake2-rfc and the harness's reference forest; hash collisions assumed impossible; advisory mmr_size field not mutated (excluded by the statement).",
    "DESIGN.md §5 C07"),
+ "C02": ("pbt", "exploration",
+   "model-based stateful proptest: delivery histories over a generated fork tree vs. a replay UTXO model",
+   "Generated histories (valid blocks built from the model UTXO of a chosen parent incl. fork runs that win or lose, re-created commitments, in-block cut-through; single-defect negative blocks; reopen; compaction on a 90-block base chain; validate) are applied to a real Chain with real PoW. After every step get_unspent over every commitment ever created, the pmmr-index enumeration and validate_inputs / validate_tx probes are compared with the harness's replay model of the current head, and accept/reject of every block with the model's verdict. Sampled exploration; no exhaustiveness claimed.",
+   "Oracle = harness replay model (spends remove, outputs insert, coinbase maturity, feature match). Blocks are rooted via Chain::set_txhashset_roots of the chain under test. Reorganisations after a compaction stay inside the horizon (generator precondition from the statement).",
+   "DESIGN.md §5 C02"),
 }
 
 NOT_YET = {}
